@@ -1210,7 +1210,7 @@ class Executor:
                     seen.add(r)
                     roots.append(r)
         for r in roots:
-            vals = [s.mem.get(r, Undef) for s in group]
+            vals = [(s.mem[r] if r in s.mem else (self.root_value(s, r) if r[0] == "O" else Undef)) for s in group]
             if all(x is vals[0] or veq(x, vals[0]) for x in vals[1:]):
                 ms.mem[r] = vals[0]
                 continue
